@@ -307,3 +307,60 @@ def c23_3(cx):
             cx.check(False, "fetch_cold_cycle returns a memo whose value is not known to be present", site, {"origin": o[:200]}, key="unknown-return")
     r = cx.fn(r"^function::fetch::<impl function::IngredientImpl<C>>::refresh_memo$")
     ret_cases(cx, r, [(r"fetch_hot\(.*\)@Some\.0$", [], "fetch_hot's memo"), (r"fetch_cold\(.*\)@Some\.0$", [], "fetch_cold's memo")], [], "refresh_memo")
+
+
+@ob("C25.4", ["C25", "C11", "C06"], "an iterator that decodes packed slots as wide ones, walks backwards when asked forwards, or classifies an edge by anything but its tag hands dependents a different edge list than was stored", kind="FLOW+ONLYIF (reader table)")
+def c25_4(cx):
+    """QueryEdges::iter keeps the representation (Packed slice -> Packed iterator, Wide -> Wide); QueryEdgeIter::next / next_back step the underlying slice iterator in the same direction and decode packed slots with PackedQueryEdge::edge; len() is the slice length; inputs() yields edge.key() exactly for kind()==Input; iter_outputs yields exactly kind()==Output of the wide slice (packed origins hold no outputs: C25.2); output_edges maps with QueryEdge::key."""
+    it = cx.fn(r"^zalsa_local::QueryEdges::<'a>::iter$")
+    ro = it.origin_local(0)
+    cx.flow(it, ro, [r"^QueryEdgeIter\{data: phi\{(QueryEdgeIterData::Packed\{0: core::slice::<impl \[T\]>::iter\(\$1\.data@Packed\.0\)\} \| QueryEdgeIterData::Wide\{0: core::slice::<impl \[T\]>::iter\(\$1\.data@Wide\.0\)\}|QueryEdgeIterData::Wide\{0: core::slice::<impl \[T\]>::iter\(\$1\.data@Wide\.0\)\} \| QueryEdgeIterData::Packed\{0: core::slice::<impl \[T\]>::iter\(\$1\.data@Packed\.0\)\})\}\}$"], [r"Iterator::rev"], "iter(): each representation yields its own forward slice iterator")
+    for path, step in ((r"^<zalsa_local::QueryEdgeIter<'_> as std::iter::Iterator>::next$", r"<Iter as std::iter::Iterator>::next"), (r"^<zalsa_local::QueryEdgeIter<'_> as std::iter::DoubleEndedIterator>::next_back$", r"<Iter as std::iter::DoubleEndedIterator>::next_back")):
+        b = cx.fn(path)
+        other = r"next_back" if step.endswith("::next") else r"Iterator>::next\("
+        defs = value_defs(b, 0)
+        cx.require(len(defs) == 2, b.short + ": two arms")
+        seen = set()
+        for site, kind, node in defs:
+            o = b._origin_def(site, kind, node, 0, None, ())
+            if "Packed" in o:
+                seen.add("P")
+                cx.flow(b, o, [r"^std::option::Option::<T>::map\(" + re.escape(step) + r"\(\$1\.data@Packed\.0\), fn:zalsa_local::PackedQueryEdge::edge\)$"], [other], "%s: packed slots are stepped in the requested direction and decoded by PackedQueryEdge::edge" % b.short, site)
+                cx.only_if(b, site, VariantIn(r"^\$1\.data$", {"Packed"}, desc="self.data is Packed"), "%s: the packed decoder runs only on a packed iterator" % b.short)
+            else:
+                seen.add("W")
+                cx.flow(b, o, [r"^" + re.escape(step) + r"\(\$1\.data@Wide\.0\)$"], [other, r"PackedQueryEdge::edge"], "%s: wide slots are stepped in the requested direction and copied" % b.short, site)
+        cx.check(seen == {"P", "W"}, b.short + " handles both representations", defs[0][0], key="both " + b.short)
+    ic = cx.fn(r"^zalsa_local::QueryOriginRef::<'a>::inputs::\{closure#0\}$")
+    kind = r"QueryEdge::kind\(\$2\)"
+    for s in cx.ret_sites(ic, "Some"):
+        cx.only_if(ic, s, VariantIn(kind, {"Input"}, desc="edge.kind() is Input"), "inputs() yields an edge only if it is an input")
+        cx.flow(ic, ic._origin_def(s, "assign", s.node(), 0, None, ()), [r"^Option::Some\{0: zalsa_local::QueryEdge::key\(\$2\)\}$"], [], "inputs() yields that edge's key", s)
+    for s in cx.ret_sites(ic, "None"):
+        cx.only_if(ic, s, VariantIn(kind, {"Output"}, desc="edge.kind() is Output"), "inputs() drops an edge only if it is an output")
+    inp = cx.fn(r"^zalsa_local::QueryOriginRef::<'a>::inputs$")
+    cx.flow(inp, inp.origin_local(0), [r"^<QueryEdgeIter as std::iter::Iterator>::filter_map\(zalsa_local::QueryEdges::<'a>::iter\(zalsa_local::QueryOriginRef::<'a>::edges\(\$1\)\), closure:.*inputs::\{closure#0\}\[\]\)$"], [r"Iterator::rev|skip|take"], "inputs() = edges().iter().filter_map(..) over all edges, forwards")
+    oc = cx.fn(r"^zalsa_local::QueryEdges::<'a>::iter_outputs::\{closure#0\}$")
+    for site, kind_, node in value_defs(oc, 0):
+        o = oc._origin_def(site, kind_, node, 0, None, ())
+        if o == "const:1":
+            cx.only_if(oc, site, VariantIn(kind, {"Output"}, desc="edge.kind() is Output"), "iter_outputs keeps an edge only if it is an output")
+        elif o == "const:0":
+            cx.only_if(oc, site, VariantIn(kind, {"Input"}, desc="edge.kind() is Input"), "iter_outputs drops an edge only if it is an input")
+        else:
+            cx.check(False, "iter_outputs filter: unknown result", site, {"origin": o}, key="filter-unknown")
+    io = cx.fn(r"^zalsa_local::QueryEdges::<'a>::iter_outputs$")
+    cx.flow(io, io.origin_local(0), [r"^<Copied as std::iter::Iterator>::filter\(<Iter as std::iter::Iterator>::copied\(core::slice::<impl \[T\]>::iter\(phi\{(\$1\.data@Wide\.0 \| array\(\)\[RangeFull\{\}\]|array\(\)\[RangeFull\{\}\] \| \$1\.data@Wide\.0)\}\)\), closure:.*iter_outputs::\{closure#0\}\[\]\)$"], [r"Iterator::rev|skip|take"], "iter_outputs filters the whole wide slice (empty for packed origins)")
+    oe = cx.fn(r"^zalsa_local::output_edges$")
+    cx.flow(oe, oe.origin_local(0), [r"^<Filter as std::iter::Iterator>::map\(zalsa_local::QueryEdges::<'a>::iter_outputs\(\$1\), fn:zalsa_local::QueryEdge::key\)$"], [], "output_edges = iter_outputs().map(QueryEdge::key)")
+    ed = cx.fn(r"^zalsa_local::QueryOriginRef::<'a>::edges$")
+    for site, kind_, node in value_defs(ed, 0):
+        o = ed._origin_def(site, kind_, node, 0, None, ())
+        if re.search(r"^\$1@Derived(Untracked)?\.0$", o):
+            continue
+        cx.only_if(ed, site, VariantIn(r"^\$1$", {"Assigned"}, desc="origin is Assigned"), "edges() is empty only for Assigned origins")
+    ou = cx.fn(r"^zalsa_local::QueryOriginRef::<'a>::outputs$")
+    nones = ou.aggregates(r"option::Option$", "None")
+    cx.sites(nones, 1, "outputs(): the None arm")
+    for s in nones:
+        cx.only_if(ou, s, VariantIn(r"^\$1$", {"Assigned"}, desc="origin is Assigned"), "outputs() is empty only for Assigned origins")
